@@ -536,8 +536,9 @@ def explore_unit(unit):
             if key not in res['viol'] or cand[:2] < res['viol'][key][:2]:
                 res['viol'][key] = cand
             return
-        if status == 'ok' and d == depth and res['sample'] is None:
-            res['sample'] = {'config': [cfg[0], list(cfg[1]), cfg[2], cfg[3]], 'ops': [list(o) for o in prefix], 'final_values_a': common.jsonable(st.values('a'))}
+        nk = len({o[0] for o in prefix})
+        if status == 'ok' and d == depth and st.alias_ops and (res['sample'] is None or nk > res['sample']['_kinds']):
+            res['sample'] = {'_kinds': nk, 'config': [cfg[0], list(cfg[1]), cfg[2], cfg[3]], 'ops': [list(o) for o in prefix], 'final_values_a': common.jsonable(st.values('a'))}
         if status == 'ok' and d < depth:
             for op in gen_ops(st, cfg, level):
                 rec(prefix + [op])
@@ -618,7 +619,7 @@ def run_opseq(rep, tier):
                     best[key] = cand
             for key, n_ in res['nviol'].items():
                 counts[key] = counts.get(key, 0) + n_
-            if res['sample'] and (smp is None or common.canon(res['sample']) < common.canon(smp)):
+            if res['sample'] and (smp is None or (-res['sample']['_kinds'], common.canon(res['sample'])) < (-smp['_kinds'], common.canon(smp))):
                 smp = res['sample']
         bounds.append(
             {
@@ -634,7 +635,7 @@ def run_opseq(rep, tier):
             }
         )
         if smp:
-            samples.append({**smp, 'space': label})
+            samples.append({**{k: v for k, v in smp.items() if k != '_kinds'}, 'space': label})
     for key, (ln, _, cfg, ops, mism) in sorted(best.items(), key=lambda kv: kv[1][:2]):
         sig = _sig_of(cfg, ops, mism)
         rep.violation(sig, {'mismatches': mism[:4], 'failing_sequences_in_this_group': counts.get(key)}, {'part': 'opseq', 'cfg': list(cfg), 'ops': ops})
